@@ -40,6 +40,11 @@ type xUnit struct {
 	// oracles (optional): expressions (by printed text) replaced by a parameter of the given Gallina type: values the
 	// environment decides (clock, I/O outcome) or that are outside the subset (floating point). At most one use each.
 	Oracles map[string]xOracle
+	// Ignore: statements (by printed text) that are left out: lock handling (`r.RLock()`, `defer r.RUnlock()`): the
+	// translation is of the sequential body; that it runs atomically is the model's assumption.
+	Ignore []string
+	// Errs: calls (by printed callee) that yield a non-nil error whatever their arguments (errors.New, fmt.Errorf)
+	Errs map[string]bool
 	// state mode (optional, xlate_state.go): the receiver is abstracted to a state value threaded through the code
 	State *xStateSpec
 	// Fuel: the unit takes a fuel argument (nat) and hands it to the fuel units it calls. Units of one Group call each
@@ -100,12 +105,15 @@ type xl struct {
 
 // identifiers the generated text uses itself; a Go variable of such a name gets a trailing underscore
 var xReserved = strings.Fields(`ctl Next Return Panic bindc go_call wrapU wrapS go_len go_nth go_in_range go_slice
- go_slice_ok go_bytes_eqb go_be_u16 go_be_u32 go_be_u64 go_emit_u8 go_emit_u16 go_emit_u32 go_emit_u64 go_emit_bytes go_range go_count go_map_get go_map_set go_make go_iter rd fuel inl inr go_atomic_cas32 go_atomic_add32
+ go_slice_ok go_bytes_eqb go_be_u16 go_be_u32 go_be_u64 go_emit_u8 go_emit_u16 go_emit_u32 go_emit_u64 go_emit_bytes go_range go_count go_map_get go_map_set go_make go_iter rd fuel inl inr go_atomic_cas32 go_atomic_add32 go_search go_search_ok Some None
  andb orb negb implb true false tt nil cons list unit bool Z N nat fst snd pair Bool eqb
  fun let in if then else match with end as return forall exists fix cofix Type Prop Set struct where at using for IF
  Definition Fixpoint Record Lemma Theorem out st`)
 
 func (x *xl) fail(n ast.Node, f string, a ...interface{}) {
+	if n == nil {
+		panic(xErr{token.Position{}, fmt.Sprintf(f, a...)})
+	}
 	panic(xErr{x.fset.Position(n.Pos()), fmt.Sprintf(f, a...)})
 }
 
@@ -216,6 +224,20 @@ func (x *xl) record(n ast.Node, nm *types.Named) string {
 	return name
 }
 
+// translatable: does the subset have values of type t?
+func (x *xl) translatable(t types.Type) (ok bool) {
+	defer func() {
+		if r := recover(); r != nil {
+			if _, isX := r.(xErr); !isX {
+				panic(r)
+			}
+			ok = false
+		}
+	}()
+	x.coqType(nil, t)
+	return true
+}
+
 func (x *xl) zero(n ast.Node, t types.Type) string {
 	if _, _, ok := xIntType(t); ok {
 		return "0"
@@ -267,6 +289,17 @@ func (x *xl) field(e ast.Expr) *types.Var {
 	}
 	if sel, ok := x.info.Selections[se]; ok && sel.Kind() == types.FieldVal && len(sel.Index()) == 1 {
 		return sel.Obj().(*types.Var)
+	}
+	return nil
+}
+
+// atomicField: c is atomic.AddInt32/AddInt64/AddUint32/AddUint64(&recv.f, d): the field
+func (x *xl) atomicField(c *ast.CallExpr) *types.Var {
+	switch x.src(c.Fun) {
+	case "atomic.AddInt32", "atomic.AddInt64", "atomic.AddUint32", "atomic.AddUint64":
+		if u, ok := c.Args[0].(*ast.UnaryExpr); ok && u.Op == token.AND {
+			return x.field(u.X)
+		}
 	}
 	return nil
 }
@@ -634,6 +667,24 @@ func (x *xl) arith(e *ast.BinaryExpr, a, b string, g *xGuards) string {
 }
 
 func (x *xl) call(e *ast.CallExpr, g *xGuards) string {
+	if x.unit.Errs[x.src(e.Fun)] { // an error value that is not nil; its text is not modelled
+		return "true"
+	}
+	if x.src(e.Fun) == "sort.Search" && len(e.Args) == 2 { // sort.Search(n, func(i int) bool { return P })
+		if fl, ok := e.Args[1].(*ast.FuncLit); ok && len(fl.Body.List) == 1 && len(fl.Type.Params.List) == 1 && len(fl.Type.Params.List[0].Names) == 1 {
+			if rs, ok := fl.Body.List[0].(*ast.ReturnStmt); ok && len(rs.Results) == 1 {
+				n := x.expr(e.Args[0], g)
+				iv := x.declare(x.info.ObjectOf(fl.Type.Params.List[0].Names[0]))
+				var gi xGuards
+				p := x.expr(rs.Results[0], &gi)
+				// the predicate is evaluated by the binary search only; a failing run-time check inside it is a panic of the search
+				f := "(fun " + iv + " : Z => if " + xConj(gi) + " then Some " + p + " else None)"
+				*g = append(*g, "(go_search_ok "+n+" "+f+")")
+				return "(go_search " + n + " " + f + ")"
+			}
+		}
+		x.fail(e, "sort.Search is in the subset only with a function literal of the form func(i int) bool { return P }")
+	}
 	if sp := x.stSpec(); sp != nil {
 		f := x.src(e.Fun)
 		if sp.Errs[f] { // an error value that is not nil; its text is not modelled
@@ -754,6 +805,11 @@ func (x *xl) composite(e *ast.CompositeLit, g *xGuards) string {
 
 // mapVar: the variable of an index expression m[k] on a map
 func (x *xl) mapVar(e *ast.IndexExpr) string {
+	if f := x.field(e.X); f != nil {
+		if n, ok := x.names[f]; ok {
+			return n
+		}
+	}
 	id, ok := e.X.(*ast.Ident)
 	if !ok {
 		x.fail(e, "map expression %s: only a map variable can be indexed", x.src(e.X))
@@ -991,6 +1047,11 @@ func (x *xl) effect(callee, prim, errv string, g xGuards, k string, d int) strin
 }
 
 func (x *xl) stmt(s ast.Stmt, rest func() string, d int) string {
+	for _, ig := range x.unit.Ignore {
+		if x.src(s) == ig {
+			return rest()
+		}
+	}
 	switch s := s.(type) {
 	case *ast.EmptyStmt:
 		return rest()
@@ -1128,6 +1189,20 @@ func (x *xl) assign(s *ast.AssignStmt, rest func() string, d int) string {
 				n = x.declare(x.info.ObjectOf(id))
 			}
 			return x.effect(callee, prim, n, g, rest(), d)
+		}
+	}
+	if len(s.Rhs) == 1 && len(s.Lhs) == 1 && x.recv != nil { // v := atomic.AddUint64(&recv.f, d): f += d atomically, v is the new value
+		if c, ok := s.Rhs[0].(*ast.CallExpr); ok && len(c.Args) == 2 {
+			if f := x.atomicField(c); f != nil {
+				fn := x.names[f]
+				dv := x.expr(c.Args[1], &g)
+				lv := x.lvalue(s.Lhs[0])
+				vn := "_"
+				if lv != nil {
+					vn = x.declare(lv)
+				}
+				return xGuarded(g, "let "+fn+" := "+x.wrap(c, f.Type(), "("+fn+" + "+dv+")")+" in let "+vn+" := "+fn+" in"+xInd(d)+rest())
+			}
 		}
 	}
 	if len(s.Rhs) == 1 {
